@@ -360,15 +360,15 @@ theorem lexGo_complete {s : List Char} {ts : List Tok} (h : Tokens s ts) : lexGo
 theorem lex_iff_tokens (s : List Char) (ts : List Tok) : lex s = .ok ts ↔ Tokens s ts :=
   ⟨lexGo_sound s.length s ts (Nat.le_refl _), lexGo_complete⟩
 
-theorem flush_ne_valueError {p : Pending} {r : LexResult} (h : r ≠ .valueError) : flush p r ≠ .valueError := by
+theorem flush_never_valueError {p : Pending} {r : LexResult} (h : r ≠ .valueError) : flush p r ≠ .valueError := by
   rcases p with _ | ⟨v, len⟩
   · exact h
   · cases r <;> simp_all [flush, tooLong, maxStrDigits]
 
-theorem cons_ne_valueError {t : Tok} {r : LexResult} (h : r ≠ .valueError) : r.cons t ≠ .valueError := by
+theorem cons_never_valueError {t : Tok} {r : LexResult} (h : r ≠ .valueError) : r.cons t ≠ .valueError := by
   cases r <;> simp_all [LexResult.cons]
 
-theorem lexGo_ne_valueError : ∀ (n : Nat) (s : List Char) (p : Pending), s.length ≤ n → lexGo s p ≠ .valueError := by
+theorem lexGo_never_valueError : ∀ (n : Nat) (s : List Char) (p : Pending), s.length ≤ n → lexGo s p ≠ .valueError := by
   intro n
   induction n with
   | zero =>
@@ -376,12 +376,12 @@ theorem lexGo_ne_valueError : ∀ (n : Nat) (s : List Char) (p : Pending), s.len
     have : s = [] := List.eq_nil_of_length_eq_zero (by omega)
     subst this
     simp only [lexGo]
-    exact flush_ne_valueError (by simp)
+    exact flush_never_valueError (by simp)
   | succ n ih =>
     intro s p hn
     rcases s with _ | ⟨c, rest⟩
     · simp only [lexGo]
-      exact flush_ne_valueError (by simp)
+      exact flush_never_valueError (by simp)
     · simp only [List.length_cons] at hn
       have one : (∀ c' r, rest = c' :: r → twoCharTok c c' = none) → lexGo (c :: rest) p ≠ .valueError := by
         intro hh
@@ -389,11 +389,11 @@ theorem lexGo_ne_valueError : ∀ (n : Nat) (s : List Char) (p : Pending), s.len
         unfold lexOne
         split
         · split <;> exact ih rest _ (by omega)
-        · apply flush_ne_valueError
+        · apply flush_never_valueError
           split
           · exact ih rest _ (by omega)
           · split
-            · exact cons_ne_valueError (ih rest _ (by omega))
+            · exact cons_never_valueError (ih rest _ (by omega))
             · simp
       rcases rest with _ | ⟨c', r⟩
       · exact one (by intro _ _ h; cases h)
@@ -401,7 +401,7 @@ theorem lexGo_ne_valueError : ∀ (n : Nat) (s : List Char) (p : Pending), s.len
         | none => exact one (by intro _ _ h; cases h; exact h2)
         | some t =>
           rw [lexGo_two h2]
-          exact flush_ne_valueError (cons_ne_valueError (ih r _ (by simp at hn; omega)))
+          exact flush_never_valueError (cons_never_valueError (ih r _ (by simp at hn; omega)))
 
 /-- a string without tokenisation is rejected with the lexer's syntax error (never `ValueError`) -/
 theorem lex_syntaxError_iff (s : List Char) : lex s = .syntaxError ↔ ¬ ∃ ts, Tokens s ts := by
@@ -413,7 +413,7 @@ theorem lex_syntaxError_iff (s : List Char) : lex s = .syntaxError ↔ ¬ ∃ ts
     cases hl : lex s with
     | ok ts => exact absurd ⟨ts, (lex_iff_tokens s ts).1 hl⟩ h
     | syntaxError => rfl
-    | valueError => exact absurd hl (lexGo_ne_valueError _ s none (Nat.le_refl _))
+    | valueError => exact absurd hl (lexGo_never_valueError _ s none (Nat.le_refl _))
 
 /-- the tokenisation is unique -/
 theorem tokens_functional {s : List Char} {ts ts' : List Tok} (h : Tokens s ts) (h' : Tokens s ts') : ts = ts' := by
